@@ -58,6 +58,18 @@ register("C17",
          "TLA+ relation + reference table model-checked by TLC; exhaustive TLC trace validation of the implementation (code->spec)",
          "DESIGN.md §4 C17")
 
+register("C19",
+         "GridOutcome.tla models the life cycle of a full-grid object (Construct, then the five getters in any order, any "
+         "number of times) with the size thresholds that select the exact / half-sphere / estimated cell model, and the set "
+         "of outcomes the statement allows; TLC explores every configuration of the box x every getter order and checks that "
+         "no outcome is an internal error and getters are pure, and exhibits the two pinned-tree defects as negative configs. "
+         "The real FullGrid is then driven over the whole box (n_b, n_o in 1..5, n_t in 1..3, both modes) through the real "
+         "parsers, all getters in two orders with repeats, and every call's outcome (error class or shape) is validated by "
+         "TLC against the allowed set.",
+         "Exhaustive over the stated box; outcome classes and shapes only (values are other properties' business).",
+         "TLA+ life-cycle model checked by TLC + TLC trace validation of every implementation call (code->spec)",
+         "DESIGN.md §4 C19")
+
 ALL = [f"C{i:02d}" for i in range(1, 21)]
 
 
